@@ -3,7 +3,7 @@
 import json, os, sys
 ROOT = os.path.dirname(os.path.dirname(os.path.abspath(__file__)))
 sys.path.insert(0, ROOT)
-HOOK_COMMITS = ["80cfb21"]
+HOOK_COMMITS = ["80cfb21", "2592ea0"]
 
 CLAIMS = {
  "C06": dict(engine="overlay", design="6/C06", technique="TLC exhaustive model checking of spec/Overlay.tla (impl-shaped merge vs reference ordered map) + replay of every reachable state on real StorageTransaction stacks + TLC trace validation of random real executions",
